@@ -36,6 +36,20 @@ def markers_everywhere(H):
     return all(x is not None for x in H.IdL) and all(x is not None for x in H.IdR)
 
 
+def plus_identity_input(H):
+    """IdL and IdR on every bond, except a single state on the first (IdL) / last (IdR) bond of a finite MPO"""
+    L = H.L
+    for b in range(L + 1):
+        if H.IdL[b] is not None and H.IdR[b] is not None:
+            continue
+        if b == 0 and H.chi[0] == 1 and H.IdL[0] is not None:
+            continue
+        if b == L and H.chi[L] == 1 and H.IdR[L] is not None:
+            continue
+        return False
+    return True
+
+
 def can_add(A, B):
     """`A + B` is defined for MPOs in sum form: infinite MPOs need IdL and IdR on every bond, finite ones only IdL on the
     first and IdR on the last bond (inner markers may be missing on any bond, e.g. `insert_all_id=False`)"""
@@ -52,6 +66,8 @@ def lean_request(case, real):
     if B is not None and (case['finite'] or can_add(A, B)):
         req['B'] = cl.mpo_json(B)
     if 'plus_identity' in case and markers_everywhere(A):
+        # (the model of plus_identity covers operands with IdL and IdR on every bond; single-state boundary bonds are
+        # compared with the dense oracle only)
         p = case['plus_identity']
         tb = Fraction(p['tb'])
         N = p['N']
@@ -240,7 +256,8 @@ def check_case(case, lean_out, real=None, use_model=True):
                 prop(f'overlap_infinite.error.{type(e).__name__}', repr(e))
     # ---- plus_identity -------------------------------------------------------------------------
     P = None
-    if 'plus_identity' in case and markers_everywhere(A) and finite:
+    P_wrong = False
+    if 'plus_identity' in case and plus_identity_input(A) and finite:
         p = case['plus_identity']
         tb, N = Fraction(p['tb']), p['N']
         alpha, beta = float(Fraction(p['alpha'])), float(tb ** N)
@@ -249,8 +266,36 @@ def check_case(case, lean_out, real=None, use_model=True):
             want = alpha * np.eye(dA.shape[0]) + beta * dA
             d = oc.maxdiff(dense(P), want)
             facts['plus_identity'] = True
+            if A.chi[0] == 1:
+                facts['plus_identity_first_bond_single_state'] = True
             if d > TOL * max(1.0, float(np.max(np.abs(want)))):
-                prop('plus_identity.dense-mismatch', f'alpha + beta*A differs by {d:.2e} (alpha={alpha}, beta={beta}, sites={p["sites"]})')
+                P_wrong = True
+                sig = 'plus_identity.first_bond_single_state' if A.chi[0] == 1 else 'plus_identity.dense-mismatch'
+                prop(sig, f'alpha + beta*A differs by {d:.2e} (alpha={alpha}, beta={beta}, sites={p["sites"]}, chi={list(A.chi)})')
+        if P is not None and not P_wrong:
+            wantP = alpha * np.eye(dA.shape[0]) + beta * dA
+            if 'second' in p:
+                q = p['second']
+                a2, b2 = float(Fraction(q['alpha'])), float(Fraction(q['tb']) ** q['N'])
+                P2 = attempt('plus_identity', lambda: P.plus_identity(a2, b2, sites=list(q['sites'])))
+                if P2 is not None:
+                    want2 = a2 * np.eye(dA.shape[0]) + b2 * wantP
+                    d = oc.maxdiff(dense(P2), want2)
+                    facts['plus_identity_twice'] = True
+                    if d > TOL * max(1.0, float(np.max(np.abs(want2)))):
+                        prop('plus_identity.applied_to_plus_identity_result',
+                             f'alpha2 + beta2*(alpha + beta*A) differs by {d:.2e} (first: alpha={alpha}, beta={beta}, '
+                             f'sites={p["sites"]}; second: alpha={a2}, beta={b2}, sites={q["sites"]})')
+            if B is not None and can_add(P, B):
+                SP = attempt('add', lambda: P + B)
+                if SP is not None:
+                    wantS = wantP + dB
+                    d = oc.maxdiff(dense(SP), wantS)
+                    facts['add_plus_identity_result'] = True
+                    if d > TOL * max(1.0, float(np.max(np.abs(wantS)))):
+                        prop('add.operand_from_plus_identity',
+                             f'(alpha + beta*A) + B differs from the dense sum by {d:.2e} (alpha={alpha}, beta={beta}, '
+                             f'sites={p["sites"]})')
     # ---- U_I ------------------------------------------------------------------------------------
     U = None
     if 'UI' in case and markers_everywhere(A):
@@ -295,7 +340,7 @@ def check_case(case, lean_out, real=None, use_model=True):
             want = np.vdot(dA.reshape(-1), dB.reshape(-1))
             if not close(oc.parse_gq(lean_out['overlap']), want, abs(want)) or not lean_out.get('overlap_ok'):
                 fails.append(('correspondence', 'model.overlap', f'model {lean_out["overlap"]} ok={lean_out.get("overlap_ok")} dense {want}'))
-    if P is not None and 'plus_identity' in lean_out:
+    if P is not None and not P_wrong and 'plus_identity' in lean_out:
         cmp_mpo(fails, 'plus_identity', P, lean_out['plus_identity'], exact)
         if not lean_out.get('plus_identity_ok'):
             fails.append(('correspondence', 'model.plus_identity_ok', 'model: denote(plus_identity) != alpha + beta * denote A'))
@@ -367,6 +412,86 @@ def full_vector(psi):
     return get_full_wavefunction(psi, undo_sort_charge=False)
 
 
+def expectation_checks(case, real, dA, fails, facts, attempt, prop):
+    """full complex expectation values of the MPO and of the same MPO flagged explicit_plus_hc (= H_half + H_half^†):
+    finite: random dense state; infinite: random iMPS, expectation_value / _power / _TM against the term-by-term
+    reference  e = [tr(rho_n H_n) - tr(rho_{n-L} H_{n-L})] / L  (H_k: all terms inside k sites, many-body oracle)"""
+    A = real['A']
+    finite = case['finite']
+    L = A.L
+    variants = [('plain', A, False)] if not finite else []
+    if case.get('epc'):
+        Ah = A.copy()
+        Ah.explicit_plus_hc = True
+        variants.append(('explicit_plus_hc', Ah, True))
+    if not variants:
+        return
+    if finite:
+        psi, vec = random_state(A.sites, case['seed'])
+        if psi is None:
+            return
+        for name, H, hc in variants:
+            Hd = dA + dA.conj().T if hc else dA
+            want = np.vdot(vec, Hd @ vec)
+            facts['expectation.' + name + '.finite'] = True
+            ev = attempt(f'expectation_value[{name}]', lambda: complex(H.expectation_value(psi)))
+            if ev is not None and not close(ev, want, abs(want) + float(np.max(np.abs(Hd)))):
+                prop(f'expectation_value.{name}.finite_mismatch', f'<psi|H|psi> = {ev!r} vs dense {complex(want)!r}')
+            # the flag in the decision procedures: overlap with the plain MPO of the same terms, dense form
+            if hc:
+                ov = attempt('overlap[explicit_plus_hc]', lambda: complex(H.overlap(A)))
+                wov = np.vdot(Hd.reshape(-1), dA.reshape(-1))
+                if ov is not None and not close(ov, wov, abs(wov)):
+                    prop('overlap.explicit_plus_hc.not-frobenius', f'overlap(H_half + h.c., H_half) = {ov!r} vs {complex(wov)!r}')
+                full = attempt('from_term_list', lambda: cl.terms_to_mpo(
+                    case, list(case['tlA']) + cl.hc_termlist(case, case['tlA'])))
+                if full is not None and float(np.max(np.abs(Hd))) > NONZERO:
+                    eq = attempt('is_equal[explicit_plus_hc]', lambda: bool(H.is_equal(full)))
+                    if eq is False:
+                        prop('is_equal.explicit_plus_hc.false-negative',
+                             'MPO flagged explicit_plus_hc is_equal(MPO of the terms and their conjugates) = False')
+        return
+    # ---- infinite
+    ext = 1
+    for term, _ in case['tlA']:
+        idx = [i for _, i in term]
+        ext = max(ext, max(idx) - min(idx) + 1)
+    n_cells = -(-(ext - 1) // L) + 1
+    dsite = A.sites[0].dim
+    if dsite ** (n_cells * L) > 1100:
+        return
+    H_n = term_oracle(case, case['tlA'], n_cells)
+    H_s = term_oracle(case, case['tlA'], n_cells - 1) if n_cells >= 2 else None
+    psi = cm.random_imps(A.sites, case['seed'], chi=3 if dsite == 2 else 2, width=L)
+    rho_n = cm.rho_window_dense(psi, n_cells * L)
+    rho_s = cm.rho_window_dense(psi, (n_cells - 1) * L) if H_s is not None else None
+    facts['iMPS_complex'] = bool(np.iscomplexobj(rho_n) and np.max(np.abs(rho_n.imag)) > 1e-12)
+    for name, H, hc in variants:
+        Hn = H_n + H_n.conj().T if hc else H_n
+        want = np.trace(rho_n @ Hn)
+        if H_s is not None:
+            Hs = H_s + H_s.conj().T if hc else H_s
+            want = want - np.trace(rho_s @ Hs)
+        want = complex(want) / L
+        scale = abs(want) + float(np.max(np.abs(Hn))) if Hn.size else 1.0
+        vals = {}
+        for meth, fn in (('expectation_value', lambda: H.expectation_value(psi)),
+                         ('expectation_value_power', lambda: H.expectation_value_power(psi)),
+                         ('expectation_value_TM', lambda: H.expectation_value_TM(psi))):
+            v = attempt(f'{meth}[{name}]', lambda: complex(fn()))
+            facts[f'expectation.{name}.{meth}'] = True
+            if v is None:
+                continue
+            vals[meth] = v
+            if abs(v - want) > 1e-8 * max(1.0, scale):
+                prop(f'{meth}.{name}.infinite_mismatch',
+                     f'density per site on a random iMPS: {v!r} vs term-by-term reference {want!r} '
+                     f'(<H_half> complex: {abs(complex(np.trace(rho_n @ H_n)).imag) > 1e-9})')
+        if 'expectation_value_power' in vals and 'expectation_value_TM' in vals and \
+                abs(vals['expectation_value_power'] - vals['expectation_value_TM']) > 1e-8 * max(1.0, scale):
+            prop(f'expectation_value.{name}.power-vs-TM', f'power {vals["expectation_value_power"]!r} TM {vals["expectation_value_TM"]!r}')
+
+
 def terms_checks(case, real, dA, fails, facts, attempt, prop):
     A = real['A']
     finite = case['finite']
@@ -409,6 +534,13 @@ def terms_checks(case, real, dA, fails, facts, attempt, prop):
             c = np.trace(diff) / diff.shape[0]
             if oc.maxdiff(diff, c * np.eye(diff.shape[0])) > 1e-9 * scale:
                 prop('to_TermList.roundtrip-mismatch', f'from_term_list(to_TermList(H)) differs from H by {oc.maxdiff(rt, dA):.2e}')
+    if case.get('epc') or not finite:
+        try:
+            with warnings.catch_warnings():
+                warnings.simplefilter('ignore')
+                expectation_checks(case, real, dA, fails, facts, attempt, prop)
+        except Exception:  # noqa: BLE001
+            fails.append(('correspondence', 'harness.expectation_checks.exception', traceback.format_exc()[-1500:]))
     if not finite:
         return
     # the propagators need IdL and IdR on every bond (documented): use the twin with all markers for them
